@@ -84,6 +84,12 @@ var schedAssumptions = append([]string{
 }, commonAssumptions...)
 
 var specs = []spec{
+	{ID: "C14", Pkg: "pkg/playlist", Level: "exploration", Procs: 2,
+		Rule:        "all 2^12 presence combinations of the optional top-level fields of Media x 3 (5) value sets, all 2^10 of Multivariant (variant attributes, second variant, renditions of every referenced type with rotating attribute subsets) x 4 (6) value sets, segment lists of length 1-3 over all 2^7 segment-level flag subsets x 5 value sets with keys changing between segments, every non-empty subset of EXT-X-SERVER-CONTROL attributes; boundary values per field (ints 0/1/2^31-1, durations 10 us..3599.99999 s, times in three zones with ms 0/1/999, byte ranges with and without start); for each value: Unmarshal(Marshal(p)) = p field by field, Marshal fixpoint, kind detection, agreement with an independent reader, and every syntactic variant (CRLF, no trailing newline, unknown tag / comment / blank line at every line position, all attribute permutations up to 4 attributes and rotations/reversal/adjacent swaps beyond, an unknown attribute at every position) decodes to the same value; distinct = distinct marshalled texts",
+		Assumptions: commonAssumptions},
+	{ID: "C15", Pkg: "pkg/playlist", Level: "exploration", Procs: 2,
+		Rule:        "(a) decoder: every truncation, single-byte deletion, substitution by each of 14 structural bytes, insertion of 4 structural bytes, line deletion / duplication / swap of every text of the stored fuzz corpora and in-code seeds, plus every sentence of 4 (5) lines over a 22-line menu of valid and degenerate tags: no panic, and on success the structural guarantees callers rely on and a successful Marshal; (b) encoder: the strict RFC 8216 / 8216bis grammar checker on Marshal of every C14 value; distinct = distinct accepted texts / marshalled texts",
+		Assumptions: commonAssumptions},
 	{ID: "C08", Pkg: ".", Level: "model_checking", Instrument: true, RacePass: true, Procs: 1,
 		InstrPkgs:  []string{".", "pkg/storage"},
 		StmtPoints: []string{"partDisk.Reader", "fileDisk.Finalize", "fileDisk.Reader", "fileDisk.NewPart", "fileRAM.Finalize", "fileRAM.Reader"},
